@@ -27,21 +27,22 @@ import (
 // handleExistingBridge build it ("bridge"), or the mini-server driven with handshakes and
 // TunnelOpen packets, where SessionManager owns the bridge ("session").
 type rig struct {
-	name        string
-	aN, bN      *vkit.BufConn
-	aS, bS      *srvConn
-	start       func() *failure // source side up, bridge running
-	attach      func() *failure // target attached
-	closeBridge func()
-	ended       func() bool // bridge run over and, for the session rig, tunnel unknown to the session
-	endedWhat   string
-	counters    func() (sent, received int64)
-	cleanup     func()
-	release     func()        // lets a stalled statistics backend go on (no-op otherwise)
-	statsHits   func() int64  // calls that reached the stalled backend
-	noCounters  bool          // the cross-node forward copies outside CopyWithControl: counters stay 0
-	setupErr    *failure      // the rig could not be built (inconclusive)
-	outage      func(on bool) // session rig with a fault-injecting store: switch the storage outage
+	name         string
+	aN, bN       *vkit.BufConn
+	aS, bS       *srvConn
+	start        func() *failure // source side up, bridge running
+	attach       func() *failure // target attached
+	closeBridge  func()
+	ended        func() bool // bridge run over and, for the session rig, tunnel unknown to the session
+	endedWhat    string
+	counters     func() (sent, received int64)
+	cleanup      func()
+	release      func()       // lets a stalled statistics backend go on (no-op otherwise)
+	statsHits    func() int64 // calls that reached the stalled backend
+	noCounters   bool         // the cross-node forward copies outside CopyWithControl: counters stay 0
+	setupErr     *failure     // the rig could not be built (inconclusive)
+	statsLookups func() (lookups, failed int)
+	outage       func(on bool) // session rig with a fault-injecting store: switch the storage outage
 }
 
 func newConns(c Case) (aN, bN *vkit.BufConn, aS, bS *srvConn) {
@@ -130,6 +131,13 @@ func newDirectRig(c Case) *rig {
 		cfg.CloudControl = sc
 		r.release = sc.release
 		r.statsHits = sc.hits
+	}
+	r.statsLookups = func() (int, int) { return 0, 0 }
+	if c.StatsFault {
+		// traffic accounting is on; the first mapping lookup of a report (the periodic tick) fails once
+		fc := &faultCloud{failFirst: 1}
+		cfg.CloudControl = fc
+		r.statsLookups = fc.counts
 	}
 	br := session.NewTunnelBridge(ctx, cfg)
 	tgt := session.CreateTunnelConnection("conn-tgt", connB, spB, 202, mappingID, tunnelID)
@@ -379,6 +387,7 @@ func newMiniRig(c Case) (*rig, *failure) {
 	r.start = func() *failure { return nil }
 	r.release = func() {}
 	r.statsHits = func() int64 { return 0 }
+	r.statsLookups = func() (int, int) { return 0, 0 }
 	fail := func(what string, err error) (*rig, *failure) {
 		r.aN.Close()
 		r.bN.Close()
